@@ -204,6 +204,9 @@ type topoOpts struct {
 // components. It returns the output topology and whether it was decided+held.
 func checkTopo(c *vlib.Case, api string, in *minfo, out []vlib.Tri, o topoOpts, extra map[string]interface{}) (*vlib.Topo3, bool) {
 	c.Count("topo.checked."+api, 1)
+	if len(in.tris) <= 24 {
+		c.Sample(api, 1, in.witness(extra))
+	}
 	if !finiteTris(out) {
 		c.Violation(api+"/finite", "output has a non-finite coordinate for a finite input", in.witness(extra))
 		return nil, false
